@@ -1,12 +1,12 @@
-/* F19b (C19): the decoder gain is applied twice to the first 2.5-5 ms after a mode change without redundancy.
+/* F12 (C19): the decoder gain is applied twice to the first 2.5-5 ms after a mode change without redundancy.
    opus_decode_frame() produces the frame it cross-fades from (pcm_transition) by calling itself with data=NULL;
    that inner call already multiplies by the gain, and the outer call multiplies the cross-faded samples again.
    The property says a gain of g multiplies the decoded signal by 10^(g/5120) and nothing else.
    Here: 48 kHz mono, 20 ms packets spliced from a speech-only and a transform-only encoder, twin decoders with
    gain 0 and gain 5120 (+20 dB, factor 10).
-   gcc -I/repo/include F19b_c19_gain_transition.c <build>/libopus.a -lm
+   gcc -I/repo/include F12_c19_gain_transition.c <build>/libopus.a -lm
    unchanged tree:   packets after a mode change: per-sample ratio y_g/y_0 ranges over about [-6700, 2200] instead of 10
-   with the proposed fix (F19b_c19_gain_transition.proposed_fix.diff): every packet min = max = 10 (to float rounding) */
+   with the proposed fix (F12_c19_gain_transition.proposed_fix.diff): every packet min = max = 10 (to float rounding) */
 #include <stdio.h>
 #include <math.h>
 #include "opus.h"
